@@ -607,3 +607,34 @@ Lemma stale_checkpoint_redoes_work :
   let wf := wrun c w2 [WStale (tasks (w_mem (wrun c w0 [WStep EEnsure]))); WCrash; WStep EEnsure] in
   status_of (tasks (w_mem w2)) 1 = 4 /\ count 1 false (log (w_mem w2)) = 1 /\ count 1 false (log (w_mem wf)) = 2.
 Proof. vm_compute. repeat split; reflexivity. Qed.
+
+(* ------------------------------------------------------------------ checkpoint failure and retry *)
+(* what the store holds is always the image of a state whose unlock completed: the current one, or - while an unlock is still
+   retrying its checkpoint - the one before the step in progress; never anything older, never a mixture *)
+Definition store_inv (c : cfg) (w : cworld) : Prop :=
+  (c_dirty w = false /\ c_disk w = tasks (c_mem w)) \/
+  (c_dirty w = true /\ exists m0 e, c_mem w = step c m0 e /\ c_disk w = tasks m0).
+
+Lemma cstep_inv : forall c w ce, store_inv c w -> store_inv c (cstep c w ce).
+Proof.
+  intros c w ce H. destruct ce as [e written| |]; simpl.
+  - destruct e; try exact H; destruct H as [[Hd Hk]|[Hd Hk]]; rewrite Hd; try (right; split; assumption);
+      destruct written; [left; split; reflexivity | right; split; [reflexivity|]; eexists; eexists; split; [reflexivity | exact Hk]
+                        |left; split; reflexivity | right; split; [reflexivity|]; eexists; eexists; split; [reflexivity | exact Hk]
+                        |left; split; reflexivity | right; split; [reflexivity|]; eexists; eexists; split; [reflexivity | exact Hk]].
+  - destruct H as [[Hd Hk]|[Hd Hk]]; rewrite Hd; [left; split; assumption | left; split; reflexivity].
+  - left. split; reflexivity.
+Qed.
+
+Theorem store_always_an_unlocked_state : forall c evs w, store_inv c w -> store_inv c (crun c w evs).
+Proof.
+  intros c evs. induction evs as [|e evs IH]; intros w H; simpl; [exact H | apply IH, cstep_inv, H].
+Qed.
+
+(* a crash while an unlock is retrying loses exactly the step in progress (which was never acknowledged): the reloaded tasks
+   are those of the state before it *)
+Theorem crash_during_retry : forall c w, store_inv c w -> c_dirty w = true ->
+  exists m0 e, c_mem w = step c m0 e /\ tasks (c_mem (cstep c w CCrash)) = tasks m0.
+Proof.
+  intros c w [[Hd _]|[_ [m0 [e [Hm Hk]]]]] Hdirty; [congruence|]. exists m0, e. split; [exact Hm | simpl; exact Hk].
+Qed.
